@@ -586,6 +586,58 @@ def run_miriwasm(cases, workdir, tag, shards=4, timeout=3600):
     return outs, crashed, info
 
 
+def run_nodewasm(cases, workdir, tag, timeout=1800):
+    """real src/wasm.rs on a REAL WebAssembly engine (V8 through node): the runner and a scratch copy of <repo>/src are built
+    as ONE no_std cdylib for wasm32-unknown-unknown (+simd128) against the core-only sysroot of `cargo miri setup`
+    (harness/nodewasm/build.sh explains why one crate), then `node run.js module.wasm`.  Returns (outs, crashed, info) like
+    run_miriwasm; (None, [("unavailable", ..)], None) when node / the sysroot / the build is not available."""
+    import tempfile
+    hh.ensure_repo_link()
+    node = next((n for n in ("/usr/bin/nodejs", shutil.which("node") or "", shutil.which("nodejs") or "") if n and os.path.exists(n)), None)
+    sysroot = os.path.expanduser("~/.cache/miri/lib/rustlib/wasm32-unknown-unknown/lib")
+    if not node or not os.path.isdir(sysroot):
+        return None, [("unavailable", 0, "node or the wasm32 core sysroot (cargo miri setup) is not present")], None
+    ndir = os.path.join(hh.ROOT, "harness", "nodewasm")
+    tdir = os.path.join(hh.BUILD, "t-nodewasm")
+    os.makedirs(tdir, exist_ok=True)
+    p = os.path.join(tdir, "ops.txt")
+    hh.write_ops(cases, p)
+    shutil.copy(p, os.path.join(workdir, f"{tag}.nodewasm.0.ops"))
+    scratch = tempfile.mkdtemp(prefix="nodewasm-", dir="/var/tmp")     # scratch copy of src: outside /repo and /verif, removed below
+    try:
+        rc, out, err = hh.sh([os.path.join(ndir, "build.sh"), os.path.realpath(hh.REPO), p, tdir, os.path.join(scratch, "crate")], timeout=timeout)
+        if rc != 0 or not out.strip():
+            return None, [("unavailable", rc, "the single-crate wasm build failed: " + err[-1500:])], None
+        wasm = out.strip().split("\n")[-1]
+        rc, out, err = hh.sh([node, os.path.join(ndir, "run.js"), wasm], timeout=timeout)
+    finally:
+        shutil.rmtree(scratch, ignore_errors=True)
+    n = len(cases)
+    info = None
+    first = out.split("\n", 1)[0]
+    if first.startswith("cfg "):
+        d = dict(tok.split("=") for tok in first.split()[1:])
+        d["_line"] = first
+        info = d
+    outs = hh.split_outputs(out, n)
+    crashed = [(0, rc, err[-3000:])] if rc != 0 else []
+    return outs, crashed, info
+
+
+def miri_unsupported(crashed):
+    return any("unsupported operation" in c[2] and "does not indicate a bug in the program" in c[2] for c in crashed)
+
+
+def run_wasm_any(cases, workdir, tag, shards=4):
+    """Miri first (it also checks for UB); when Miri lacks an operation the code uses, the same cases on the real engine"""
+    outs, crashed, info = run_miriwasm(cases, workdir, tag, shards=shards)
+    if crashed and miri_unsupported(crashed):
+        o2, c2, i2 = run_nodewasm(cases, workdir, tag)
+        if o2 is not None:
+            return o2, c2, (info or i2), "node"
+    return outs, crashed, info, "miri"
+
+
 X86_CKPTS = None
 
 
@@ -671,14 +723,36 @@ def special_c04(res, tier, seed, workdir, stats):
     holder = {}
 
     def ex(cases, tag):
-        outs, crashed, info = run_miriwasm(cases, workdir, tag, shards=(hh.NPROC if tier == "thorough" else 6))
+        outs, crashed, info, engine = run_wasm_any(cases, workdir, tag, shards=(hh.NPROC if tier == "thorough" else 6))
         holder["info"] = info
+        holder["engine"] = engine
         return outs, crashed
     info0 = {"arch": "wasm32", "std": "0", "simd128": "1", "_line": "cfg arch=wasm32 std=0 tf_sse41=0 tf_avx2=0 simd128=1 cpu_sse41=0 cpu_avx2=0"}
     st = check_mod().run_config(res, "C04", tier, seed, "miri-wasm32-simd128", None, info0, workdir, gen_override=gen_simd_target("wasm"), executor=ex, label="c04")
     st["target_info"] = (holder.get("info") or {}).get("_line")
     stats.append(st)
     res.cov["interpreter"] = "MIRI_NO_STD=1 cargo +nightly miri run --target wasm32-unknown-unknown -Ctarget-feature=+simd128 (real src/wasm.rs)"
+    if holder.get("engine") == "node":
+        res.notes.append("Miri does not support an operation the wasm back end now uses; the stream was executed on the real engine (node/V8) instead")
+        res.cov["interpreter"] += " - NOT usable for the current source (unsupported operation); the stream ran on node/V8"
+
+    # second executor: the same source on a real WebAssembly engine (V8), different seed
+    nholder = {}
+
+    def ex_node(cases, tag):
+        outs, crashed, info = run_nodewasm(cases, workdir, tag)
+        nholder["crashed"] = crashed
+        if outs is None:
+            nholder["unavailable"] = crashed[0][2]
+            # not executable here: hand back the model's own outputs so that nothing is compared (recorded as not executed)
+            raise RuntimeError("nodewasm unavailable")
+        return outs, crashed
+    try:
+        st2 = check_mod().run_config(res, "C04", tier, seed * 31 + 5, "node-wasm32-simd128", None, info0, workdir, gen_override=gen_simd_target("wasm"), executor=ex_node, label="c04node")
+        stats.append(dict(st2, engine="node " + (hh.sh(["/usr/bin/nodejs", "--version"])[1].strip() or "?")))
+        res.cov["real_engine"] = "the same op streams on V8 (node): src/wasm.rs + the runner built as one no_std wasm32 cdylib (+simd128) against the core-only Miri sysroot; Debug ops are not observed there"
+    except RuntimeError:
+        res.cov["real_engine"] = "not executed: " + str(nholder.get("unavailable", ""))[:300]
 
     def esc():
         st2 = check_mod().run_config(res, "C04", tier, seed * 4099 + 19, "miri-wasm32-simd128", None, info0, workdir, gen_override=gen_simd_target("wasm"), executor=ex, label="c04esc")
@@ -837,7 +911,7 @@ def special_c07(res, tier, seed, workdir, stats):
         res.notes.append("Miri aarch64 unavailable: NeonHash::default not executed")
 
     def exw(cases, tag):
-        outs, crashed, info = run_miriwasm(cases, workdir, tag, shards=4)
+        outs, crashed, info, _engine = run_wasm_any(cases, workdir, tag, shards=4)
         return outs, crashed
     info1 = {"arch": "wasm32", "std": "0", "simd128": "1", "_line": "cfg arch=wasm32 std=0 tf_sse41=0 tf_avx2=0 simd128=1 cpu_sse41=0 cpu_avx2=0"}
     stats.append(check_mod().run_config(res, "C07", tier, seed, "miri-wasm32-simd128", None, info1, workdir, gen_override=g_wasm, executor=exw, label="c07-wasm"))
